@@ -67,6 +67,26 @@ func c16Run(fs *Facts) {
 			}
 		}
 	}
+	// delete marker bookkeeping
+	if sw != nil {
+		save, dh := sw.Func("swamp", "SaveFunction"), sw.Func("swamp", "deleteHandler")
+		if save == nil || dh == nil {
+			fs.Tri("recreateDropsDeleteMarker", Unknown, swampPath)
+		} else {
+			drops := len(sw.Calls(save, "s.treasuresWaitingForWriter.Delete")) > 0
+			skips := false
+			ast.Inspect(dh, func(x ast.Node) bool {
+				if ifs, ok := x.(*ast.IfStmt); ok && strings.Contains(sw.Str(ifs.Cond), "GetFileName() == nil") &&
+					strings.Contains(sw.Str(ifs.Body), "treasuresWaitingForWriter.Delete") {
+					skips = true
+				}
+				return true
+			})
+			fs.Tri("recreateDropsDeleteMarker", TriOf(drops && skips), swampPath+":"+itoa(sw.Line(dh)))
+		}
+	} else {
+		fs.Tri("recreateDropsDeleteMarker", Unknown, swampPath)
+	}
 	hy, err := Load(hydraPath)
 	if err != nil {
 		fs.Err("%v", err)
